@@ -19,7 +19,7 @@ const UNREACHABLE: &[&str] = &[
     "<template is=\"t\" data=\"{{ {a: F} }}\"/>", "<include src=\"q\"/><block wx:if=\"{{ a ? F : 1 }}\">x</block>", "<slot name=\"{{F}}\"/>",
     "<block wx:for=\"{{z}}\" wx:key=\"k\"><view>{{ o[F] }}</view></block>",
 ];
-const BOUND: &str = "8 mappable fragments x 12 unreachable-position fragments x {same field, different fields} x both orders";
+const BOUND: &str = "8 mappable fragments x 12 unreachable-position fragments x {same field, different fields} x both orders; 8 mappable fragments x 6 placements of an <include> (no field may be advertised)";
 
 static MAPS_SEEN: std::sync::atomic::AtomicU64 = std::sync::atomic::AtomicU64::new(0);
 fn advertised(js: &str) -> Vec<(String, usize)> {
@@ -46,7 +46,7 @@ fn check(tmpl: &str, must_not: &[&str]) -> Option<(String, String)> {
     let adv = advertised(&js);
     if !adv.is_empty() { MAPS_SEEN.fetch_add(1, std::sync::atomic::Ordering::SeqCst); }
     for (f, n) in &adv {
-        if must_not.contains(&f.as_str()) {
+        if must_not.contains(&f.as_str()) || must_not.contains(&"*") {
             return Some((format!("field {:?} is advertised: A={:?}", f, adv), format!("{:?} not advertised (used where the binding map cannot reach)", f)));
         }
         for i in 0..*n {
@@ -71,6 +71,18 @@ fn cases() -> Vec<(String, Vec<&'static str>)> {
                 v.push((format!("{}{}", a, b), vec![uf]));
                 v.push((format!("{}{}", b, a), vec![uf]));
             }
+        }
+    }
+    // an <include> renders another file with the same data and that file's own map is not merged: NO field of the
+    // including template may be offered a fast path, wherever the include stands relative to the field's uses
+    for m in MAPPABLE {
+        let a = m.replace("F", "fa").replace("G", "fg");
+        for t in [
+            format!("<include src=\"q\"/>{}", a), format!("{}<include src=\"q\"/>", a), format!("<view><include src=\"q\"/></view>{}", a),
+            format!("{}<include src=\"q\"/>{}", a, m.replace("F", "fb").replace("G", "fg")), format!("<block wx:if=\"{{{{z}}}}\"><include src=\"q\"/></block>{}", a),
+            format!("<view>x</view><include src=\"q.wxml\"/><view>{}</view>", a),
+        ] {
+            v.push((t, vec!["*"]));
         }
     }
     v
